@@ -202,7 +202,16 @@ func runSolver(ctx context.Context, s solverSpec, file string, timeoutS int) (st
 	cmd.Run()
 	dur = time.Since(t0).Seconds()
 	out = buf.String()
-	first := strings.TrimSpace(strings.SplitN(out, "\n", 2)[0])
+	// the verdict is the first line that is not a solver warning (z3 warns about patterns it will not use)
+	first := ""
+	for _, ln := range strings.Split(out, "\n") {
+		ln = strings.TrimSpace(ln)
+		if ln == "" || strings.HasPrefix(ln, "WARNING") {
+			continue
+		}
+		first = ln
+		break
+	}
 	switch first {
 	case "sat", "unsat", "unknown":
 		status = first
